@@ -23,6 +23,21 @@ package lungo
 //@ global ErrEngineClosed != nil
 //@ global ErrSessionEnded != nil
 
+// catalog.go: a cloned catalog is a fresh object with a fresh map that holds the
+// same collection pointers; the original is not written (copy-on-write root).
+
+//@ func (*Catalog).Clone
+//@   tags C03 C02
+//@   opt loopframe = on
+//@   locals clone name namespace
+//@   requires d != nil
+//@   modifies nothing
+//@   ensures [C03,C02 name=fresh] result != nil && fresh(result) && result.Namespaces != nil && fresh(result.Namespaces)
+//@   ensures [C03,C02 name=same-entries] all(h, "(Array Int Str)", has(result.Namespaces, h) == has(d.Namespaces, h) && imp(has(d.Namespaces, h), result.Namespaces[h] == d.Namespaces[h]))
+//@   loop 0 invariant clone != nil && clone.Namespaces != nil && fresh(clone) && fresh(clone.Namespaces) && clone.Namespaces != d.Namespaces
+//@   loop 0 invariant all(h, "(Array Int Str)", has(clone.Namespaces, h) == visited(h))
+//@   loop 0 invariant all(h, "(Array Int Str)", imp(visited(h), has(d.Namespaces, h) && clone.Namespaces[h] == d.Namespaces[h]))
+
 //@ func (*Transaction).Dirty
 //@   tags C03
 //@   requires t != nil
@@ -73,6 +88,134 @@ package lungo
 //@   ensures [C16 name=aborted] imp(ghost.alive && old(e.txn) == txn, e.txn == nil)
 //@   ensures [C16 name=foreign-untouched] imp(old(e.txn) != txn, e.txn == old(e.txn) && ghost.held == old(ghost.held))
 //@   ensures [C03 name=nothing-published] e.catalog == old(e.catalog)
+
+// ---------------------------------------------------------------------------
+// transaction.go: a write that reports an error leaves the database exactly as
+// it was (C02), older catalogs are never written (C03), and what a transaction
+// publishes never contains a collection that a failed step left half-modified
+// (C02, C15).
+//
+//   error-leaves-state: err != nil  ==>  t.catalog and t.dirty are untouched
+//   frame (modifies t.catalog, t.dirty): every other write of the method and of
+//     everything it calls goes to an object allocated during the call; in
+//     particular a mutating collection method is only ever called on a clone
+//     made in this call (frame@call obligations), so nothing reachable from the
+//     old catalog pointer changes
+//   published-clean: no collection of the catalog the transaction holds
+//     afterwards is tainted (a clone on which a step failed is dropped)
+
+//@ define cleanCatalog(cat) = cat != nil && cat.Namespaces != nil && all(h, "(Array Int Str)", imp(has(cat.Namespaces, h), !ghost.tainted[cat.Namespaces[h]] && allocated(cat.Namespaces[h])))
+//@ define onlyTaints2(a, b) = all(x, Ref, ghost.tainted[x] == old(ghost.tainted)[x] || x == a || x == b)
+
+//@ func (*Transaction).append
+//@   trusted
+//@   modifies since(oplog), ghost.tainted
+//@   ensures imp(err == nil, ghost.tainted == old(ghost.tainted)) && imp(err != nil, ghost.tainted == upd(old(ghost.tainted), oplog, true))
+
+//@ func (*Transaction).insert
+//@   tags C02
+//@   requires t != nil && oplog != nil && namespace != nil && doc != nil
+//@   modifies since(oplog), since(namespace), *doc, ghost.tainted
+//@   ensures [C02 name=success-clean] imp(err == nil, ghost.tainted == old(ghost.tainted) && result0 != nil)
+//@   ensures [C02 name=failure-confined] imp(err != nil, onlyTaints2(oplog, namespace))
+//@ func (*Transaction).replace
+//@   tags C02
+//@   requires t != nil && oplog != nil && namespace != nil
+//@   modifies since(oplog), since(namespace), *repl, ghost.tainted
+//@   ensures [C02 name=success-clean] imp(err == nil, ghost.tainted == old(ghost.tainted) && result0 != nil)
+//@   ensures [C02 name=failure-confined] imp(err != nil, onlyTaints2(oplog, namespace))
+//@ func (*Transaction).update
+//@   tags C02
+//@   requires t != nil && oplog != nil && namespace != nil
+//@   modifies since(oplog), since(namespace), ghost.tainted
+//@   ensures [C02 name=success-clean] imp(err == nil, ghost.tainted == old(ghost.tainted) && result0 != nil)
+//@   ensures [C02 name=failure-confined] imp(err != nil, onlyTaints2(oplog, namespace))
+//@   loop 0 invariant ghost.tainted == old(ghost.tainted) && res != nil
+//@   locals res err i doc
+//@ func (*Transaction).delete
+//@   tags C02
+//@   requires t != nil && oplog != nil && namespace != nil
+//@   modifies since(oplog), since(namespace), ghost.tainted
+//@   ensures [C02 name=success-clean] imp(err == nil, ghost.tainted == old(ghost.tainted) && result0 != nil)
+//@   ensures [C02 name=failure-confined] imp(err != nil, onlyTaints2(oplog, namespace))
+//@   loop 0 invariant ghost.tainted == old(ghost.tainted) && res != nil
+//@   locals res err doc
+
+// Insert: per item a fresh clone of the namespace and of the oplog; a failing
+// item's clones are dropped, a succeeding item's clones replace the entries of
+// the working catalog, so the working catalog is clean at every iteration and
+// "exactly the items that individually succeeded take effect".
+//@ func (*Transaction).Insert
+//@   tags C02 C03 C15
+//@   opt loopframe = on
+//@   locals err clone result doc namespace oplog res
+//@   requires t != nil && cleanCatalog(t.catalog) && has(t.catalog.Namespaces, Oplog) && t.catalog.Namespaces[Oplog] != nil
+//@   modifies t.catalog, t.dirty, ghost.tainted
+//@   ensures [C02 name=error-leaves-state] imp(err != nil, t.catalog == old(t.catalog) && t.dirty == old(t.dirty))
+//@   ensures [C02,C15 lemma name=only-fresh-tainted] all(x, Ref, imp(preexisting(x), ghost.tainted[x] == old(ghost.tainted)[x]))
+//@   ensures [C02,C15 lemma name=old-or-clean-clone] t.catalog == old(t.catalog) || cleanCatalog(t.catalog)
+//@   ensures [C02,C15 name=published-clean] cleanCatalog(t.catalog)
+//@   loop 0 invariant clone != nil && fresh(clone) && clone.Namespaces != nil && fresh(clone.Namespaces) && cleanCatalog(clone)
+//@   loop 0 invariant has(clone.Namespaces, handle) && clone.Namespaces[handle] != nil && has(clone.Namespaces, Oplog) && clone.Namespaces[Oplog] != nil
+//@   loop 0 invariant result != nil && fresh(result) && t.catalog == old(t.catalog) && t.dirty == old(t.dirty)
+//@   loop 0 invariant forall(i, 0, len(list), imp(spec.witness(i), list[i] != nil && fresh(list[i]))) && (cap(result.Modified) == 0 || (fresh(result.Modified) && alloc(result.Modified.base) > alloc(list.base)))
+//@   loop 0 invariant spec.witness(rangeindex + 1)
+//@   loop 0 invariant all(x, Ref, imp(preexisting(x), ghost.tainted[x] == old(ghost.tainted)[x]))
+
+// Bulk: the same per-operation cloning discipline as Insert.
+//@ func (*Transaction).Bulk
+//@   tags C02 C03 C15 C07
+//@   opt loopframe = on
+//@   locals err clone changes results op namespace oplog res
+//@   requires t != nil && cleanCatalog(t.catalog) && has(t.catalog.Namespaces, Oplog) && t.catalog.Namespaces[Oplog] != nil
+//@   modifies t.catalog, t.dirty, ghost.tainted
+//@   ensures [C02 name=error-leaves-state] imp(err != nil, t.catalog == old(t.catalog) && t.dirty == old(t.dirty))
+//@   ensures [C02,C15 lemma name=only-fresh-tainted] all(x, Ref, imp(preexisting(x), ghost.tainted[x] == old(ghost.tainted)[x]))
+//@   ensures [C02,C15 lemma name=old-or-clean-clone] t.catalog == old(t.catalog) || cleanCatalog(t.catalog)
+//@   ensures [C02,C15,C07 name=published-clean] cleanCatalog(t.catalog)
+//@   loop 0 invariant clone != nil && fresh(clone) && clone.Namespaces != nil && fresh(clone.Namespaces) && cleanCatalog(clone)
+//@   loop 0 invariant has(clone.Namespaces, handle) && clone.Namespaces[handle] != nil && has(clone.Namespaces, Oplog) && clone.Namespaces[Oplog] != nil
+//@   loop 0 invariant t.catalog == old(t.catalog) && t.dirty == old(t.dirty) && (cap(results) == 0 || fresh(results))
+//@   loop 0 invariant all(x, Ref, imp(preexisting(x), ghost.tainted[x] == old(ghost.tainted)[x]))
+
+//@ func (*Transaction).Create
+//@   tags C02 C03 C15
+//@   requires t != nil && cleanCatalog(t.catalog)
+//@   modifies t.catalog, t.dirty, ghost.tainted
+//@   ensures [C02 name=error-leaves-state] imp(err != nil, t.catalog == old(t.catalog) && t.dirty == old(t.dirty))
+//@   ensures [C02,C15 name=published-clean] cleanCatalog(t.catalog)
+//@ func (*Transaction).CreateIndex
+//@   tags C02 C03 C15
+//@   requires t != nil && cleanCatalog(t.catalog)
+//@   modifies t.catalog, t.dirty, ghost.tainted
+//@   ensures [C02 name=error-leaves-state] imp(err != nil, t.catalog == old(t.catalog) && t.dirty == old(t.dirty))
+//@   ensures [C02,C15 name=published-clean] cleanCatalog(t.catalog)
+//@ func (*Transaction).DropIndex
+//@   tags C02 C03 C15
+//@   requires t != nil && cleanCatalog(t.catalog)
+//@   modifies t.catalog, t.dirty, ghost.tainted
+//@   ensures [C02 name=error-leaves-state] imp(err != nil, t.catalog == old(t.catalog) && t.dirty == old(t.dirty))
+//@   ensures [C02,C15 name=published-clean] cleanCatalog(t.catalog)
+
+//@ func (*Transaction).Replace
+//@   tags C02 C03 C15
+//@   requires repl != nil
+//@   requires t != nil && cleanCatalog(t.catalog) && has(t.catalog.Namespaces, Oplog) && t.catalog.Namespaces[Oplog] != nil
+//@   modifies t.catalog, t.dirty, ghost.tainted
+//@   ensures [C02 name=error-leaves-state] imp(err != nil, t.catalog == old(t.catalog) && t.dirty == old(t.dirty))
+//@   ensures [C02,C15 name=published-clean] cleanCatalog(t.catalog)
+//@ func (*Transaction).Update
+//@   tags C02 C03 C15
+//@   requires t != nil && cleanCatalog(t.catalog) && has(t.catalog.Namespaces, Oplog) && t.catalog.Namespaces[Oplog] != nil
+//@   modifies t.catalog, t.dirty, ghost.tainted
+//@   ensures [C02 name=error-leaves-state] imp(err != nil, t.catalog == old(t.catalog) && t.dirty == old(t.dirty))
+//@   ensures [C02,C15 name=published-clean] cleanCatalog(t.catalog)
+//@ func (*Transaction).Delete
+//@   tags C02 C03 C15
+//@   requires t != nil && cleanCatalog(t.catalog) && has(t.catalog.Namespaces, Oplog) && t.catalog.Namespaces[Oplog] != nil
+//@   modifies t.catalog, t.dirty, ghost.tainted
+//@   ensures [C02 name=error-leaves-state] imp(err != nil, t.catalog == old(t.catalog) && t.dirty == old(t.dirty))
+//@   ensures [C02,C15 name=published-clean] cleanCatalog(t.catalog)
 
 // ---------------------------------------------------------------------------
 // utils.go / session.go: every way of running a write finishes it. The callback
